@@ -51,6 +51,10 @@ STAT = {"ipfix": "IPFIX", "nf9": "NetflowV9", "nf5": "NetflowV5", "sflow": "SFlo
 PROP_OF = {"crash": "C01", "exit": "C01", "stderr": "C01", "probe": "C01",
            "rss": "C02", "alloc": "C02", "amplification": "C02", "stall": "C02", "latency": "C02",
            "count": "C13", "missing": "C13", "invented": "C13", "duplicate": "C13", "cross": "C13"}
+# classes that are ALSO findings of other properties observed at the same point ("lines received by the message-queue sink"):
+# C14 — every message handed to the producer arrives once, unmodified, in a line of its own, also when all four protocols'
+# producers run side by side (seed C14-h: one RawSocket shared by the four producers); C05 — what arrives is the published JSON
+ALSO = {"invented": ("C14", "C05"), "duplicate": ("C14",), "missing": ("C14",)}
 # verdict classes that depend on elapsed time or on the load of the machine: they are reported only when the cycle, run
 # again alone, fails in the same class twice more
 TIMED = ("stall", "latency", "missing", "count-short", "probe", "rss", "alloc", "amplification")
@@ -863,6 +867,9 @@ DEMANDS = {
            "fail:amplification only as far as the decoded fields that consume no octet (k4_extra_fields, counted by the reference) explain it at "
            "1 KiB each, else fail:rss / fail:alloc; no counter standstill of 10 s with datagrams queued (fail:stall); probes answered within "
            "5 s (fail:latency); time / memory verdicts must reproduce twice when the cycle is run again alone",
+    "C14": "the raw-socket producers of all four protocols run side by side against one sink (no fault injected): the multiset of lines at the sink = "
+           "the multiset of reference payloads — no line that is not a handed-over message, none twice, none missing",
+    "C05": "every line at the sink is a reference payload: the published JSON of one datagram, byte for byte",
     "C13": "per protocol at quiescence UDPCount = datagrams sent, DecodedCount = datagrams the in-process reference counts as decoded, lines at "
            "the sink = reference payloads as multisets (none invented, none twice, none missing); phase 0 one protocol at a time: no counter of "
            "another protocol moves; thorough, burst at full speed (loss expected): UDPCount moves by <= sent, DecodedCount by <= min(received, "
@@ -883,8 +890,11 @@ def traffic_cycles(pid, tier, seed):
            "probe_latency_s_max": 0.0, "stream_s_max": 0.0, "udp_queue_peak": 0, "reruns": 0, "classes": {}, "sent": {p: 0 for p in PROTOS},
            "decoded": {p: 0 for p in PROTOS}}
     for i, params, outcome, findings, sample, reruns in run["cycles"]:
-        mine = [(c, t) for c, t in findings if PROP_OF.get(c.split("-")[0], "C01") == pid]
-        other = [c for c, t in findings if PROP_OF.get(c.split("-")[0], "C01") != pid]
+        def owns(c):
+            k = c.split("-")[0]
+            return PROP_OF.get(k, "C01") == pid or pid in ALSO.get(k, ())
+        mine = [(c, t) for c, t in findings if owns(c)]
+        other = [c for c, t in findings if not owns(c)]
         r.evaluations += 1
         agg["reruns"] += reruns
         case = "traffic-cycle %d seed %d %s" % (i, seed, json.dumps(dict(params, **{k: v for k, v in sample.items() if k not in params})))
